@@ -53,7 +53,10 @@ type Parser struct {
 // limit of 1 GB is in effect one of 512 MB (stacks grow by doubling). 250 levels x 1100
 // nested executions (see executionNesting) stay below that - provided the 250 are counted
 // over the tags and the expressions inside them together, which is what deeper() does.
-const maxNestingDepth = 250
+//
+// On a 32-bit platform the stack limit is a quarter of that (250 MB, in effect 128 MB)
+// while a level costs about half (0.7 KB): 150 levels fit there.
+const maxNestingDepth = 150 + 100*int(^uint(0)>>63)
 
 // deeper accounts for n more levels of nesting and refuses to go beyond the bound. The
 // tags around the expression (counted per template by parseTagElement) count as well:
